@@ -360,6 +360,19 @@ def compare(ip, op, a, b, st, node=None):
             and st.heap[a.oid].kind == 'inst' and st.heap[b.oid].kind == 'inst':
         return [((a.oid == b.oid) == (t is ast.Eq), st)]
     if t in (ast.Eq, ast.NotEq):
+        for x, y in ((a, b), (b, a)):
+            if isinstance(x, BytesV) and isinstance(y, Const) and isinstance(y.value, bytes):
+                lit = b''
+                for p in x.parts:
+                    if p[0] == 'lit':
+                        lit += p[1]
+                    else:
+                        break
+                n = min(len(lit), len(y.value))
+                lo_, hi_ = bytes_len(x, st)
+                if lit[:n] != y.value[:n] or len(y.value) < lo_ or len(y.value) > hi_:
+                    return [(t is ast.NotEq, st)]
+
         def concrete(v):
             if isinstance(v, Const):
                 return True, v.value
